@@ -122,15 +122,20 @@ def run_judge(ctx, batch, nshards=None):
 
 
 def model_checks(ctx, quick):
+    """run in a background thread (TLC only, independent of everything else); returns what to account"""
     cfgs = ["X86LenMC.cfg"] if quick else ["X86LenMC.cfg", "X86LenMC_thorough.cfg"]
     jobs = [(c, False) for c in cfgs] + [("X86LenMC_dev%d.cfg" % k, True) for k in ((1 + ctx.seed % 3,) if quick else (1, 2, 3))]
 
     def one(job):
         cfg, dev = job
-        return tlc.run("X86Len", cfg, expect_violation=dev, coverage=(cfg == "X86LenMC.cfg"), workers=4,
+        return tlc.run("X86Len", cfg, expect_violation=dev, coverage=(cfg == "X86LenMC_thorough.cfg"), workers=6,
                        tag="c07" + cfg[:-4], timeout=3000)
     with mp.pool.ThreadPool(len(jobs)) as tp:
         results = tp.map(one, jobs)
+    return jobs, results
+
+
+def account_model_checks(ctx, jobs, results):
     caught = {}
     for (cfg, dev), res in zip(jobs, results):
         if dev:
@@ -212,9 +217,9 @@ def run(ctx):
         ctx.note("stage_wall_s", dict(walls))
         ctx.note("stage_cpu_s", dict(cpus))
     # ---------------------------------------------------------------- M
-    if os.environ.get("C07_DEBUG_SKIP_M", "") != "1":      # development aid only
-        model_checks(ctx, quick)
-    lap("M")
+    mpool = mp.pool.ThreadPool(1)
+    skip_m = os.environ.get("C07_DEBUG_SKIP_M", "") == "1"      # development aid only
+    mfuture = None if skip_m else mpool.apply_async(model_checks, (ctx, quick))
     # ---------------------------------------------------------------- T-ref self-test
     table = c07.load_table()
     sweeps = c07.load_sweeps()
@@ -231,7 +236,7 @@ def run(ctx):
     templates = generate(ctx, quick)
     lap("G generate")
     rng = random.Random(ctx.seed)
-    ninst = 2 if quick else 5
+    ninst = 2 if quick else 3
     gen = []        # (mode, bytes, tl, template index)
     for idx, tpl in enumerate(templates):
         for inst in range(ninst):
@@ -325,8 +330,13 @@ def run(ctx):
         ctx.sample({"source": "W boundary walk (first steps)", "mode": allsw[0]["m"], "buffer": allsw[0]["buf"][:48].hex(),
                     "steps": [(o, a["al"], a["fmt"]) for (o, a) in sdec[0][:6]]}, cap=8)
     # ---------------------------------------------------------------- TLC judges
-    run_judge(ctx, bg, nshards=8)
+    run_judge(ctx, bg, nshards=8 if quick else 16)
     lap("judge (TLC)")
+    if mfuture is not None:
+        jobs, results = mfuture.get()
+        account_model_checks(ctx, jobs, results)
+    mpool.close()
+    lap("M (in background since start; time still waited here)")
     ctx.exhaustive = False
 
 
